@@ -10,14 +10,15 @@ def run(tier, rep):
     thorough = tier == 'thorough'
     K, K2 = (5, 5) if thorough else (3, 4)
     PERM = 4 if thorough else 3
+    SITES = 2 if thorough else 1
     with Scratch() as sc:
         sfs, extra = lr.spec_files(sc, specOrdK=K, specOrdK2=K2)
         res = run_gosym(lr.spec_cfg(sfs, extra, 'harnessC15Order', tier, opaque_pkgs=['math/rand'], max_steps=80000000,
-                                    map_order=MAP_ORDER, max_map_perm=PERM), sc, 'c15', timeout=6 * 3600)
-        merge_gosym(rep, res, "spec.Parse + Spec.DFA run twice on seven fixed openings followed by every sequence of <= %d tokens (<= %d after the two openings built for this property): sorted map order vs every permutation (of the first %d entries) of every Go map ranged over in emerge's own packages" % (K, K2, PERM))
+                                    map_order=MAP_ORDER, max_map_perm=PERM, max_order_sites=SITES), sc, 'c15', timeout=6 * 3600)
+        merge_gosym(rep, res, "spec.Parse + Spec.DFA run twice on eight fixed openings followed by every sequence of <= %d tokens (<= %d after the three openings built for this property): sorted map order vs every permutation (of the first %d entries) of every Go map ranged over in emerge's own packages" % (K, K2, PERM))
         seen = set()
         for v in (res.get('violations') or []):
-            key = v['msg'][:60]
+            key = v['msg'][:160]
             if key in seen or len(seen) >= 4:
                 continue
             seen.add(key)
@@ -32,16 +33,17 @@ def run(tier, rep):
         # the generator: template data, files and diagnostics
         name, rel, pkg, pkgname, entry, redirect, opq, label = c16.HARNESSES[0]
         cfg = c16.cfg(rel, pkg, 'harnessC15Generate', redirect, opq, tier)
-        cfg.update({'map_order': MAP_ORDER, 'max_map_perm': PERM, 'max_steps': 200000000})
+        cfg.update({'map_order': MAP_ORDER, 'max_map_perm': PERM, 'max_order_sites': SITES, 'max_steps': 200000000})
         res = run_gosym(cfg, sc, 'c15gen', timeout=6 * 3600)
-        merge_gosym(rep, res, "golang.Generate (operating system always succeeding, template.Execute replaced by a recorder of the template data) on a corpus of 4 specifications: sorted map order vs every permutation (of the first %d entries) of every Go map ranged over in emerge's own packages" % PERM)
+        merge_gosym(rep, res, "golang.Generate (operating system always succeeding, template.Execute replaced by a recorder of the template data) on a corpus of 6 specifications: sorted map order vs every permutation (of the first %d entries) of every Go map ranged over in emerge's own packages" % PERM)
         for v in (res.get('violations') or [])[:3]:
             rep.violation('%s: %s inputs=%s map orders=%s' % (v['harness'], v['msg'][:400], [(i['name'], i['value']) for i in v['inputs'] or []][:6], [t for t in (v.get('tags') or []) if t.startswith('maporder')][:3]),
                           {'harness': v['harness'], 'pkg': rel, 'inputs': v['inputs'], 'msg': v['msg'], 'note': 'environment stubs are engine-side redirects'})
         rep.assumptions += [
-            'the iteration order of a Go map is a free decision of the path only where emerge\'s own code (module packages under internal/) ranges over it; the containers of moorara/algo are executed as they are, with math/rand opaque (the library\'s own randomised traversals are outside the claim)',
+            'the iteration order of a Go map is a free decision of the path only where emerge\'s own code (module packages under internal/) ranges over it; rand.Shuffle inside the All() of the library\'s hash tables/sets and sort.Shuffle at the start of the library\'s quick sort are free permutations only when the nearest caller outside those packages is one of emerge\'s own functions, the identity otherwise (what the library traverses or sorts on its own behalf is outside the claim); goroutines of the code under test run as coroutines whose order at WaitGroup.Wait is free, without preemption inside them',
+            'at most %d traversals/sorts per path get a non-sorted order' % SITES,
             'only the first %d entries of a ranged map are permuted (larger maps: the rest keeps sorted order; counted under "map order: only the first entries permuted")' % PERM,
             'the bytes of the generated files are represented by the data handed to the templates (template texts are constants, text/template is deterministic); progress messages (random emoji) are outside the property',
             'fresh-process effects other than map iteration order (hash seeds inside the library, scheduling) are NOT decided; repeated in-process invocations are the subject of C17',
-            'bounds: %d appended tokens after five openings, %d after the two openings built for this property; 4 specifications through Generate' % (K, K2),
+            'bounds: %d appended tokens after five openings, %d after the three openings built for this property; 6 specifications through Generate' % (K, K2),
         ]
